@@ -48,9 +48,11 @@ CHECKS = {
              'canonical image->value->image for any well-formed UTF-16 text up to the field width (non-BMP included); the icon '
              'decoder\'s address map = Morton order in row-major 8x8 tiles for every pixel of both icon sizes, colour expansion for '
              'all 65536 RGB565 values, and decode(tile(pixels)) = expand(pixels) for whole icons; seed database save->load; '
-             'DIFI / IVFC / DPFS value->bytes->value; NCSD header image->value->image.  Config savegame and the backward LZSS '
-             'decoder are modelled and compared with pyctr on outputs of independent builders / a reference compressor '
-             '(their round trips are decided by that comparison and the monitors, not yet by a theorem).',
+             'DIFI / IVFC / DPFS value->bytes->value; NCSD header image->value->image; config savegame: load(to_bytes(blocks)) = blocks '
+             'for every block list the strict table allows (and image->value->image for canonical images), set_block/get_block '
+             'laws incl. the default flags, the typed accessors (user name, RTC offset, system model) setter->getter.  The backward '
+             'LZSS decoder is modelled and compared with pyctr on outputs of a reference compressor in the harness (pyctr has no '
+             'compressor; that round trip is decided by the comparison, the decoder\'s termination and bounds are C19 theorems).',
         note=COMMON_NOTE + 'Python utf-16le codec = library semantics (strings as code-unit lists with a validity predicate); strings '
              'with NUL at either end are outside the round trip (strip); the reference compressor is greedy and in-place-safe.',
         technique='Lean 4 proof (algebraic round trips, exhaustive kernel evaluation) + model/implementation correspondence',
